@@ -1121,3 +1121,51 @@ def oracle_c16(op, kv, res, trace, flags):
 
 def nontrivial_c16(op, kv):
     return kv.get("ops", "").count(",") >= 2
+
+# --------------------------------------------------------------------------
+# C17: allocation probe
+# --------------------------------------------------------------------------
+ALLOC_KINDS_ZERO = ["memchr", "memrchr", "memchr2", "memrchr2", "memchr3", "memrchr3", "iter", "mm_find", "mm_rfind",
+                    "mm_find_iter", "mm_rfind_iter", "finder_new_find", "rfinder_new_rfind", "owned_then_search", "shiftor_find", "blocks"]
+ALLOC_KINDS_OWNING = ["into_owned_borrowed", "shiftor_new"]
+
+def gen_c17(tier, rng):
+    quick = tier == "quick"
+    cases = []
+    pairs = []
+    for x in (b"", b"a", b"ab", b"aba", b"foo", bytes(range(1, 16)), bytes(range(1, 17)), bytes(range(1, 33)), bytes(range(1, 34)),
+              b"xy" + b"z" * 40, b"ab" * 20 + b"c", b"z" * 100):
+        junk = ((x[:2] or b"q") + b"q") * 70
+        for h in (b"", b"q" * 10, b"q" * 70, junk + x, x + b"--" + x, (x or b"a") * 6, junk, b"q" * 300 + x + b"q" * 50):
+            pairs.append((x, h))
+    pairs += substring_pairs(rng, True)[:: (41 if quick else 7)]
+    k = 0
+    for (x, h) in pairs:
+        for what in ALLOC_KINDS_ZERO + ALLOC_KINDS_OWNING:
+            if what.startswith("shiftor") and len(x) > 20:
+                continue
+            k += 1
+            extra = f" cfg={['auto', 'none'][k % 2]} rank={RANKS_MM[k % len(RANKS_MM)]}" if what == "finder_new_find" else ""
+            cases.append(f"alloc what={what}{extra} x={hexs(x)} h={hexs(h)} a={(k * 3) % 64}")
+    return cases
+
+def canon_c17(op, res):
+    return res.split(":")[0] if op == "alloc" else res
+
+def oracle_c17(op, kv, res, trace, flags):
+    if res.startswith("Panic") or res.startswith("CRASH"):
+        return f"alloc probe {kv['what']}: {res}"
+    if res in ("BadCase", "UnknownOp"):
+        return None            # this API does not exist in this build (e.g. no `alloc` feature)
+    n = int(res.split(":")[0])
+    what = kv["what"]; x = bytes.fromhex(kv.get("x", ""))
+    if what in ALLOC_KINDS_ZERO:
+        return None if n == 0 else f"{what} performed {n} heap allocation(s) (needle {len(x)} bytes, haystack {len(kv.get('h',''))//2} bytes)"
+    if what == "into_owned_borrowed":
+        return None if n <= 1 else f"into_owned performed {n} allocations"
+    if what == "shiftor_new":
+        return None if n <= 1 else f"shiftor::Finder::new performed {n} allocations"
+    return None
+
+def nontrivial_c17(op, kv):
+    return len(kv.get("h", "")) >= 8
